@@ -1,5 +1,10 @@
 """C07 native: executable contract of prior_combinations_sample + history-level fairness on the real function."""
 import copy
+import e2e
+import json
+import os
+import tempfile
+from collections import Counter
 import itertools
 import sys
 from types import SimpleNamespace
@@ -72,11 +77,51 @@ def main():
                 h.fail('history.exactly_cap_distinct', wit, f'result {res}')
             if not arbitrary and any(CR.GLOBAL_PRIOR_COMB_COUNTS[x] != selected[x] for x in L):
                 h.fail('history.count_is_selection', wit, f'{dict(CR.GLOBAL_PRIOR_COMB_COUNTS)} vs {selected}')
+    # ---- one call on a very large candidate list: exactly min(cap, n) candidates whatever the cap is (no hidden limit)
+    CR.GLOBAL_PRIOR_COMB_COUNTS.clear()
+    bigL = [(f'a{i}', f'b{i}') for i in range(12000)]
+    for cap_ in (11000, 12000, 20000):
+        res_ = CR.prior_combinations_sample(list(bigL), make_args(combination_number_upper_bound=cap_, target_ranking_only='False'))
+        h.record(('big', cap_), True)
+        if len(res_) != min(cap_, len(bigL)) or len(set(res_)) != len(res_):
+            h.fail('prior_combinations_sample.ensures.len', {'candidates': len(bigL), 'cap': cap_}, f'{len(res_)} candidates returned, expected {min(cap_, len(bigL))}',
+                   obligations=['core_ranking.prior_combinations_sample/ensures.len'])
+    # ---- in the rank graph with a reference model (prior heuristic): the cap is spent on candidates that are really scored,
+    #      and the reported counts are the numbers of times a pair was scored
+    import json as _json
+    import pandas as pd
+    from rank_common import InlinePool, Pbar
+    real_est = CR.get_importances_estimate_pairwise
+    scored = []
+
+    def cheap(combination, reference_model_features, args, tmp_df):
+        scored.append(tuple(combination))
+        return [combination[0], combination[1], 0.5]
+    CR.get_importances_estimate_pairwise = cheap
+    try:
+        with tempfile.TemporaryDirectory(dir=os.getcwd()) as d:
+            ref = os.path.join(d, 'reference.json')
+            with open(ref, 'w') as fh:
+                _json.dump({'desc': {'features': ['f0', 'f1'], 'fields': []}}, fh)
+            CR.GLOBAL_PRIOR_COMB_COUNTS.clear()
+            cols_ = ['f0', 'f1', 'f2', 'f3', 'f4', 'label']
+            tally = Counter()
+            for batch, cap_ in enumerate((4, 4, 3, 20, 2)):
+                args_ = make_args(heuristic='surrogate-SGD', reference_model_JSON=ref, target_ranking_only='True', combination_number_upper_bound=cap_)
+                df_ = pd.DataFrame({c_: rng.integers(0, 3, 25).astype(str) for c_ in cols_})
+                del scored[:]
+                CR.mixed_rank_graph(df_, args_, InlinePool(), Pbar())
+                eligible = [c_ for c_ in cols_ if c_ not in ('f0', 'f1')]
+                h.record(('refmodel', batch), True)
+                wit_ = {'columns': cols_, 'reference_model_features': ['f0', 'f1'], 'cap': cap_, 'batch': batch + 1}
+                if len(set(scored)) != min(cap_, len(eligible)) or any(a in ('f0', 'f1') or b in ('f0', 'f1') for a, b in scored):
+                    h.fail('mixed_rank_graph.cap_is_spent_on_scored_candidates', wit_, f'{len(set(scored))} distinct pairs scored: {sorted(set(scored))}; eligible {len(eligible)}')
+                tally.update(set(scored))
+                if any(CR.GLOBAL_PRIOR_COMB_COUNTS[k_] != tally[k_] for k_ in set(tally) | set(CR.GLOBAL_PRIOR_COMB_COUNTS)):
+                    h.fail('mixed_rank_graph.reported_counts_equal_scored', wit_, f'counts {dict(CR.GLOBAL_PRIOR_COMB_COUNTS)} vs scored {dict(tally)}')
+    finally:
+        CR.get_importances_estimate_pairwise = real_est
     # ---- the export: combination_estimation_counts.json of a real CLI run equals the number of batches each pair was evaluated in
-    import json
-    import os
-    import tempfile
-    import e2e
     rows = [[str(int(v)) for v in rng.integers(0, 3, 4)] + [str(int(rng.integers(0, 2)))] for _ in range(3 * 1100 + 1100 + 30)]
     with tempfile.TemporaryDirectory(dir=os.getcwd()) as d:
         e2e.write_csv(d, ['f0', 'f1', 'f2', 'f3', 'label'], rows)
